@@ -146,6 +146,10 @@ impl Adapter for MarlinA {
         out.obs1(&format!("{}.w", name), "G1", ser_hex(&pf.w));
         out.obs1(&format!("{}.rv", name), "F", pf.random_v.map(|x| f_to_str(&x)).unwrap_or("none".into()));
     }
+    fn extra_c12(ck: &CK<Self>, vk: &VK<Self>, out: &mut Out) {
+        crate::pc::ser_obs("kzgpowers", &ck.powers(), out);
+        crate::pc::ser_obs("kzgvk", &vk.vk, out);
+    }
     fn comm_lin(a: Fr, c1: &Cm<Self>, b: Fr, c2: &Cm<Self>) -> Option<Cm<Self>> { marlin_comm_lin(a, c1, b, c2) }
     fn comm_is_identity(c: &Cm<Self>) -> Option<bool> { use ark_ec::AffineRepr; Some(c.comm.0.is_zero() && c.shifted_comm.as_ref().map(|s| s.0.is_zero()).unwrap_or(true)) }
     fn mutate_comm(kind: &str, cm: &LabeledCommitment<Cm<Self>>, args: &[String]) -> Option<LabeledCommitment<Cm<Self>>> {
@@ -195,6 +199,9 @@ impl Adapter for SonicA {
     fn proof_obs(name: &str, pf: &Pf<Self>, out: &mut Out) {
         out.obs1(&format!("{}.w", name), "G1", ser_hex(&pf.w));
         out.obs1(&format!("{}.rv", name), "F", pf.random_v.map(|x| f_to_str(&x)).unwrap_or("none".into()));
+    }
+    fn extra_c12(ck: &CK<Self>, _vk: &VK<Self>, out: &mut Out) {
+        crate::pc::ser_obs("kzgpowers", &ck.powers(), out);
     }
     fn comm_lin(a: Fr, c1: &Cm<Self>, b: Fr, c2: &Cm<Self>) -> Option<Cm<Self>> { Some(ark_poly_commit::kzg10::Commitment(g1_lin(a, &c1.0, b, &c2.0))) }
     fn comm_is_identity(c: &Cm<Self>) -> Option<bool> { use ark_ec::AffineRepr; Some(c.0.is_zero()) }
